@@ -1275,8 +1275,8 @@ Proof. exact join_path_examples. Qed.
 
 (* N.3  L2 for Url::path_segments_mut sessions (open; any sequence of clear / pop / pop_if_empty / push / extend with
    arbitrary &str arguments; drop) on EVERY canonical record without the "/." marker (with the marker: class F-C03-5):
-   the result is canonical.  Covers finding F-C06-7: push(".<TAB>.") is treated as ".." by the path state and pops a
-   segment - the result is still canonical (hence a fixpoint), which is all that is claimed here. *)
+   the result is canonical.  (The statement also held with finding F-C06-7, now fixed: push(".<TAB>.") was treated as ".."
+   by the path state and popped a segment - the result was still canonical; extend() now skips such a segment.) *)
 Theorem C02_psm_session_Canon : forall dbg hp hpo hd, HostRT hp hpo hd -> forall u ops u' status,
   Canon hp hpo hd u -> Forall psm_op_ok ops -> has_marker u = false ->
   path_segments_session dbg u ops = Some (u', status) -> nlen (ser u') <= U32_MAX_P -> Canon hp hpo hd u'.
@@ -1334,7 +1334,7 @@ Print Assumptions C02_step_Canon.
 
 Example C02_reach_partial5_inhabited :
   match m_hist "http://h/a/b?q#f" [OPathSegments [PPush [46; 9; 46]; PPush (B "x/y")]] with
-  | Some u => list_eqb (ser u) (B "http://h/a//x%2Fy?q#f") && m_fix u | None => false end = true
+  | Some u => list_eqb (ser u) (B "http://h/a/b/x%2Fy?q#f") && m_fix u | None => false end = true
   /\ match m_hist "a:/p/q" [OPathSegments [PPop; PPop; PPush []; PPush (B "z w")]] with
      | Some u => list_eqb (ser u) (B "a:/z%20w") && m_fix u | None => false end = true
   /\ match m_hist "a://h" [OPathSegments [PExtend [B "a"; B ".."; B "%2e"; []]; PPopIfEmpty]] with
